@@ -371,10 +371,16 @@ func faultOp(t *tape.Tape, c int, drawing bool) (world.Op, string) {
 			k := []world.Kind{world.KSetCSel, world.KSetNSel, world.KSetLOD}[t.Intn(3)]
 			return world.Op{K: k, U: uint8(t.Intn(64)), F: [6]float32{0, 64}}, "styling op inside a path"
 		case 1:
+			if t.Bool() {
+				return world.Op{K: world.KSetNReg, U: uint8(t.Intn(7)), F: [6]float32{world.NRegVal(t)}}, "register write inside a path"
+			}
 			return world.Op{K: world.KSetCReg, U: uint8(t.Intn(7)), C: world.GenColor(t)}, "register write inside a path"
 		case 2:
 			return world.Op{K: world.KStartPath, U: uint8(t.Intn(7)), F: [6]float32{world.LoCoord(t), world.LoCoord(t)}}, "StartPath inside a path"
 		default:
+			if t.Bool() {
+				return world.Op{K: world.KSetCReg, Incr: true, C: world.GenColor(t)}, "incrementing register write inside a path"
+			}
 			return world.Op{K: world.KSetNReg, Incr: true, F: [6]float32{world.NRegVal(t)}}, "incrementing register write inside a path"
 		}
 	}
